@@ -3,7 +3,7 @@ import os
 
 from .. import kernel, pipetrace, repotests
 from ..common import Machinery, log, read_ndjson
-from ..inputs import REF, fasta, gff, mutate
+from ..inputs import REF, fasta, gff, mutate, sam
 
 CMDS = ["toma", "samvar", "variants", "variantsref", "snps", "udlist"]
 
@@ -52,6 +52,17 @@ def cli_vectors(ctx, gate_topa):
         for js in ([ctx.seed] if quick else [ctx.seed, ctx.seed + 1, ctx.seed + 2]):
             add("topa-stdout/t%d/j%d" % (t, js), topa + ["-t", str(t)], base=topa + ["-t", "1"],
                 env={"VHOOK_JITTER": str(js)}, parse="topa", n=24)
+    # windowed toPairAlign on queries whose insertions have the same total length at different places (same row width):
+    # whatever a worker keeps from the previous record shows as a difference between thread counts
+    def ins_rec(i):
+        a = 10 if i % 2 else 25
+        seq = mutate(REF, i)
+        return ("q%d" % i, 0, 0, "%dM3I%dM" % (a, len(REF) - a), seq[:a] + "TTT" + seq[a:])
+    files["ins.sam"] = {"text": sam([ins_rec(i) for i in range(24)])}
+    win = ["sam", "toPairAlign", "-s", "@ins.sam", "-r", "@ref.fa", "-o", "stdout", "--start", "12", "--end", "28"]
+    for t in ([2, 4] if quick else [2, 3, 4, 8, 16]):
+        add("topa-window-insertions/t%d" % t, win + ["-t", str(t)], base=win + ["-t", "1"], env={"VHOOK_JITTER": str(ctx.seed + t)},
+            parse="topa", n=24, sig="topa-window", r=max(reps, 6))
     # imposed delivery orders from the model, small input
     small = dict(files)
     small["in.sam"] = {"kind": "pipe-sam", "N": gate_topa[0]["N"]} if gate_topa else files["in.sam"]
